@@ -79,6 +79,20 @@ def check_case(out: Outcome, case, tag):
         sc_ = np.array(sub.cumulative_displacements)
         sp_ = np.array(sub.positions)
         predicates(out, {**case, 'sub_trajectory_from_frame': a0}, coords[a0:], sp_, sd, sc_)
+    # objects DERIVED from the trajectory (drift-corrected copy, selection, slice) are computed from it: afterwards the trajectory
+    # itself must still report what it reported before
+    if T >= 2 and len(out.failures) == n_before:
+        import warnings
+        src = gem.make_traj(coords, lat, ['Li'] * A)
+        if (T + A) % 2:
+            _ = src.positions
+        with warnings.catch_warnings():
+            warnings.simplefilter('ignore')
+            _ = src.apply_drift_correction()
+            _ = src.filter('Li')
+            _ = src[1:]
+        predicates(out, {**case, 'after': 'apply_drift_correction(), filter(), slice taken from the same object'}, coords,
+                   np.array(src.positions), np.array(src.displacements), np.array(src.cumulative_displacements))
     prop_failed = len(out.failures) > n_before
     for n, t, why in diffs:
         # positions / displacements / cumulative displacements are pinned by the statement (model = spec by theorem)
